@@ -300,6 +300,8 @@ def finish(pid, tier, seed, results, t0, extra, replayer_available=True):
         json.dump(ev, f, indent=1, default=str)
     for l in lines:
         print(l)
+    slow = sorted(results, key=lambda r: -r.get('wall_s', 0))[:3]
+    print('slowest: ' + '; '.join('%s %.1fs/%d paths' % (r['name'], r.get('wall_s', 0), r.get('paths', 0)) for r in slow))
     print('%s tier=%s obligations=%d paths=%d decisions=%d solver_queries=%d assertions=%d wall=%.1fs exit=%d'
           % (pid, tier, len(results), paths, decisions, queries, requires, time.time() - t0, exit_code))
     return exit_code
